@@ -149,6 +149,13 @@ def flush_adj_rib_out(
             self.log_failure(f'no neighbor matching the command : {command}', 'warning')
             reactor.processes.answer_error_sync(service)
             return False
+        # only the outgoing table can be flushed, and the command takes nothing else: 'rib flush in' ran as a flush
+        # out, 'rib flush out 10.0.0.1' on every neighbor
+        words = [word for word in command.split() if word not in ('rib', 'flush', 'adj-rib')]
+        if words != ['out']:
+            self.log_failure(f'rib flush takes the direction out and nothing else : {command}', 'warning')
+            reactor.processes.answer_error_sync(service)
+            return False
         reactor.asynchronous.schedule(service, command, callback(self, peers))
         return True
     except ValueError:
@@ -182,8 +189,14 @@ def clear_adj_rib(
             self.log_failure(f'no neighbor matching the command : {command}', 'warning')
             reactor.processes.answer_error_sync(service)
             return False
-        words = command.split()
-        direction = 'in' if 'in' in words else 'out'
+        # what follows the verb is the direction and nothing else: anything after it (a mistyped direction, the
+        # address of a neighbor as 'rib show' takes one) used to be ignored, and every neighbor was cleared
+        words = [word for word in command.split() if word not in ('rib', 'clear', 'adj-rib')]
+        if words not in (['in'], ['out']):
+            self.log_failure(f'rib clear takes a direction, in or out, and nothing else : {command}', 'warning')
+            reactor.processes.answer_error_sync(service)
+            return False
+        direction = words[0]
         reactor.asynchronous.schedule(service, command, callback(self, peers, direction))
         return True
     except ValueError:
